@@ -27,7 +27,7 @@ RULE = ("api: Hypothesis draws a limit L in [1, 10^7] (or None / 0), a reset per
         "block per stream, and the total duration <= bytes in scope / L + the same slack. Non-trivial = the trace crosses "
         "a reset, has unequal chunks, or two limits apply (api); >= 2 connections or two limits (e2e); distinct by case.")
 ASSUMPTIONS = [
-    "tolerance: half a byte per accounting step (the implementation rounds once per reset fold) plus 1e-9 relative float error",
+    "tolerance: 1/1000 byte per accounting step plus 1e-9 relative float error and one byte (the reset fold is exact since the F25 repair)",
     "end to end: control-channel bytes pass through the same throttles and are counted in the scope's byte total",
     "each connection transfers its own file (MemoryPathIO keeps one read position per file)",
 ]
@@ -52,6 +52,9 @@ class MemStream:
     async def readline(self):
         return await self.read()
 
+    async def readexactly(self, count):
+        return await self.read()
+
     def write(self, data):
         self._start = self.loop.time()
 
@@ -72,6 +75,9 @@ API = st.tuples(
     st.sampled_from(["single", "single", "shared", "cloned", "opposite_only", "unlimited", "zero", "two_limits", "setter"]),
     st.lists(OPS, min_size=1, max_size=4),
     st.integers(2, 50))
+
+
+TOL_STEP = F(1, 1000)  # per accounting step: float error only (the reset fold keeps fractions of a byte)
 
 
 def verify_bound(events, L, tol_per_step, tag, detail, strict_single=False):
@@ -155,7 +161,8 @@ async def _api(loop, case, out):
             ms.dur, ms.n, ms.ready = dur, n, loop.time()
             before = loop.time()
             if direction == "read":
-                await s.read(n)
+                # every reading entry point of the stream is subject to the limit
+                await [s.read, s.read, s.readexactly, s.readline][(k + sid) % 4](*([] if (k + sid) % 4 == 3 else [n]))
             else:
                 await s.write(b"x" * n)
             out.setdefault("elapsed", []).append((sid, loop.time() - before, dur))
@@ -191,16 +198,16 @@ def check_api(ctx, case):
         return
     if topo == "setter" and out["setter_at"]:
         k, newlimit, cut = out["setter_at"]
-        verify_bound(log[:cut], L, F(1, 2), "api/setter_before", detail, strict_single=True)
-        verify_bound(log[cut:], newlimit, F(1, 2), "api/setter_after", dict(detail, new_limit=newlimit), strict_single=True)
+        verify_bound(log[:cut], L, TOL_STEP, "api/setter_before", detail, strict_single=True)
+        verify_bound(log[cut:], newlimit, TOL_STEP, "api/setter_after", dict(detail, new_limit=newlimit), strict_single=True)
         return
     for limit, sids in out["scopes"]:
         ev = [e for e in log if e[0] in sids]
-        verify_bound(ev, limit, F(1, 2), "api/" + topo, dict(detail, scope_limit=limit),
+        verify_bound(ev, limit, TOL_STEP, "api/" + topo, dict(detail, scope_limit=limit),
                      strict_single=(topo in ("single", "cloned")))
     if topo == "two_limits":
         # the tighter limit governs and adds no delay beyond its own bound
-        verify_bound([e for e in log], min(l for l, _ in out["scopes"]), F(1, 2), "api/two_limits_tightest", detail, strict_single=True)
+        verify_bound([e for e in log], min(l for l, _ in out["scopes"]), TOL_STEP, "api/two_limits_tightest", detail, strict_single=True)
 
 
 def part_api(ctx):
